@@ -205,6 +205,7 @@ type solveOpts struct {
 	both     bool // thorough: require a second back end where it answers
 	workers  int
 	noSecond bool
+	only     map[string]bool // if set: discharge only obligations of these clauses
 	stability bool // claim mode: must also discharge under a perturbed solver seed, quickly
 }
 
@@ -212,6 +213,10 @@ func discharge(vc *VC, obls []*Obligation, opts solveOpts) {
 	var wg sync.WaitGroup
 	sem := make(chan struct{}, opts.workers)
 	for i, o := range obls {
+		if opts.only != nil && !opts.only[o.Clause] && o.Kind != "vacuity" && o.Kind != "cover" {
+			o.Result, o.Backend = "skipped", ""
+			continue
+		}
 		o.Query = vc.buildQuery(o)
 		wg.Add(1)
 		sem <- struct{}{}
